@@ -6,7 +6,7 @@ EXPLANATION = ('Decides from MIR: (R11.1) every inverse method of KinematicsWith
                'forward / link poses / limits / singularity return the inner result; (R11.2) the collision filter pushes an element exactly on the '
                'false edge of RobotBody::collides for that same element, iterating the input sequentially, and applies no re-ordering or removing '
                'operation; (R11.3) stack construction Tool{Base{OPWKinematics::new_with_constraints}} from the constructor parameters, identical in '
-               'both public constructors; (R11.4) positioned_robot pairs mesh i with link pose i and the tool with pose J6.  (R11.5) the four collision queries of the robot with shape (collides, near, collision_details, non_colliding_offsets) return the body's query of the same name on the robot's own body and kinematics with the caller's arguments in order - the planners and the neighbour enumeration ask through them, so C12, C13 and C14 re-check this clause.  Mesh geometry is not decided.')
+               'both public constructors; (R11.4) positioned_robot pairs mesh i with link pose i and the tool with pose J6.  (R11.5) the four collision queries of the robot with shape (collides, near, collision_details, non_colliding_offsets) return the query of the same name of the body, on the own body and kinematics of the robot, with the arguments of the caller in order - the planners and the neighbour enumeration ask through them, so C12, C13 and C14 re-check this clause.  Mesh geometry is not decided.')
 NOT_DECIDED = 'geometry of the collision queries (C10)'
 ASSUMPTIONS = ['Vec::push appends at the end; vec::IntoIter yields elements in order']
 KWS = 'kinematics_with_shape::KinematicsWithShape'
